@@ -188,7 +188,7 @@ func (m *TCPMuxDefault) createConn(ufrag string, isIPv6 bool, local net.IP, from
 	go func() {
 		defer m.wg.Done()
 		<-conn.CloseChannel()
-		m.removeConnByUfragAndLocalHost(ufrag, connKey)
+		m.removeClosedConn(ufrag, connKey, conn)
 	}()
 
 	return conn, nil
@@ -382,35 +382,19 @@ func (m *TCPMuxDefault) RemoveConnByUfrag(ufrag string) {
 	}
 }
 
-func (m *TCPMuxDefault) removeConnByUfragAndLocalHost(ufrag string, localIPAddr ipAddr) {
-	removedConns := make([]*tcpPacketConn, 0, 4)
-
-	// Keep lock section small to avoid deadlock with conn lock
+// removeClosedConn forgets conn once it has been closed. It removes that very connection
+// only, not a newer one registered under the same ufrag and local address.
+func (m *TCPMuxDefault) removeClosedConn(ufrag string, localIPAddr ipAddr, conn *tcpPacketConn) {
 	m.mu.Lock()
-	if conns, ok := m.connsIPv4[ufrag]; ok {
-		if conn, ok := conns[localIPAddr]; ok {
-			delete(conns, localIPAddr)
-			if len(conns) == 0 {
-				delete(m.connsIPv4, ufrag)
-			}
-			removedConns = append(removedConns, conn)
-		}
-	}
-	if conns, ok := m.connsIPv6[ufrag]; ok {
-		if conn, ok := conns[localIPAddr]; ok {
-			delete(conns, localIPAddr)
-			if len(conns) == 0 {
-				delete(m.connsIPv6, ufrag)
-			}
-			removedConns = append(removedConns, conn)
-		}
-	}
-	m.mu.Unlock()
+	defer m.mu.Unlock()
 
-	// Close the connections outside the critical section to avoid
-	// deadlocking TCP mux if (*tcpPacketConn).Close() blocks.
-	for _, conn := range removedConns {
-		m.closeAndLogError(conn)
+	for _, byUfrag := range []map[string]map[ipAddr]*tcpPacketConn{m.connsIPv4, m.connsIPv6} {
+		if conns, ok := byUfrag[ufrag]; ok && conns[localIPAddr] == conn {
+			delete(conns, localIPAddr)
+			if len(conns) == 0 {
+				delete(byUfrag, ufrag)
+			}
+		}
 	}
 }
 
@@ -425,6 +409,15 @@ func (m *TCPMuxDefault) getConn(ufrag string, isIPv6 bool, local net.IP) (val *t
 		// Note: this is missing zone for IPv6
 		connKey := ipAddr(local.String())
 		val, ok = conns[connKey]
+	}
+
+	// A closed connection stays in the map until its watcher has removed it.
+	if ok {
+		select {
+		case <-val.CloseChannel():
+			return nil, false
+		default:
+		}
 	}
 
 	return
